@@ -181,9 +181,28 @@ def prop_autoflow(r):
     from vlib.ctx import PassTimeout, parse, run_pass, shared_ctx, time_limit
 
     text = C02.build(r)
+    sibling = False
+    if r.get("sibling"):
+        # a second operation of the same kind with another shape, in a function placed in front of @main in the same module
+        try:
+            t2 = C02.build(dict(r, **r["sibling"]))
+            body2 = t2.strip()[len("builtin.module {"):].rstrip()[:-1].replace("@main", "@pre")
+            body1 = text.strip()[len("builtin.module {"):]
+            merged = "builtin.module {" + body2.rstrip() + "\n" + body1.lstrip("\n")
+            m2 = parse(merged, shared_ctx())
+            m2.verify()
+            text, sibling = merged, True
+        except Exception:
+            pass
     mod = parse(text, shared_ctx())
     mod.verify()
-    ops = [o for o in mod.walk() if o.name == "dart.operation"]
+
+    def in_main(o):
+        while o is not None and o.name != "func.func":
+            o = o.parent_op()
+        return o is not None and o.sym_name.data == "main"
+
+    ops = [o for o in mod.walk() if o.name == "dart.operation" and in_main(o)]
     assert len(ops) == 1
     op = ops[0]
     # iteration bounds from the recipe (independent of the dialect's own bound inference)
@@ -208,7 +227,7 @@ def prop_autoflow(r):
         raise Reject(f"scheduler refused: {type(e).__name__}")
     except Exception as e:
         raise Violation(f"autoflow:raises:{type(e).__name__}", dict(error=repr(e), module=text))
-    scheds = [o for o in mod.walk() if o.name == "dart.schedule"]
+    scheds = [o for o in mod.walk() if o.name == "dart.schedule" and in_main(o)]
     if len(scheds) != 1:
         raise Reject("operation left unscheduled")
     s = scheds[0]
@@ -219,13 +238,32 @@ def prop_autoflow(r):
         raise Violation("autoflow:iteration-multiset-differs", dict(op_bounds=ob, schedule_bounds=sb, module=text))
     npts = int(np.prod(ob))
     changed = sb != ob or any(not (a[0] == b[0]).all() for a, b in zip(mats, smats) if a[0].shape == b[0].shape) or len(sb) != len(ob)
-    return Info(nontrivial=bool(changed and npts > 1), classes=("kind:" + r["kind"], "tiled" if len(sb) > len(ob) else "untiled"))
+    return Info(nontrivial=bool(changed and npts > 1),
+                classes=("kind:" + r["kind"], "tiled" if len(sb) > len(ob) else "untiled") + (("sibling-op-in-module",) if sibling else ()))
 
 
 def _autoflow_strategy(tier):
     import props.C02 as C02
+    from hypothesis import strategies as st
 
-    return C02.recipe(tier).filter(lambda r: True)
+    @st.composite
+    def strat(draw):
+        r = draw(C02.recipe(tier))
+        if draw(st.integers(0, 2)) == 0:
+            f = st.sampled_from([1, 2, 2, 3])
+            if r["kind"] == "alu":
+                sib = dict(shape=[d * draw(f) for d in r["shape"]])
+                if sib["shape"] == r["shape"]:
+                    sib["shape"][-1] *= 2
+                r["sibling"] = sib
+            elif r["kind"] in ("matmul", "gemm"):
+                sib = dict(M=r["M"] * draw(f), N=r["N"] * draw(f), K=r["K"] * draw(f))
+                if (sib["M"], sib["N"], sib["K"]) == (r["M"], r["N"], r["K"]):
+                    sib["M"] *= 2
+                r["sibling"] = sib
+        return r
+
+    return strat()
 
 
 SUBS.append(
